@@ -120,6 +120,7 @@ enum method : unsigned
   m_proxy_copy,
   m_init_proxy,
   m_array_ctor,
+  m_truthy,
   m_count
 };
 // the judged function a construction method exercises (first component of the violation key)
@@ -139,12 +140,13 @@ char const *const method_fn[m_count] = {"set",
                                         "operator|",
                                         "operator[]=",
                                         "init",
-                                        "object(array)"};
+                                        "object(array)",
+                                        "set"};
 char const *const method_tag[m_count] = {"set-ascending",   "set-descending", "initializer-list", "init",
                                          "clear-from-full", "index-assign",   "or-assign-element", "or-element",
                                          "not-of-complement", "double-not",   "xor-with-full",    "and-assign-not",
                                          "or-of-halves",   "index-assign-from-proxy", "init-from-proxy-returning-function",
-                                         "from-the-array-of-another-bitfield"};
+                                         "from-the-array-of-another-bitfield", "truth-values-that-are-not-0-or-1"};
 
 template <class E, unsigned N, class W>
 struct world
@@ -265,6 +267,21 @@ struct world
     switch (how)
     {
     case m_canon: return canon(m);
+    case m_truthy:
+    {
+      // the value parameter is a truth value: any non-zero integer (a masked flag word such as w & 0x200) means "in"
+      bf r(bf::null());
+      unsigned const flag_words[3] = {0x200U, 0x10000U, 0x300U};
+      for (unsigned k = 0; k < N; ++k)
+      {
+        unsigned const w = bit(m, k) ? flag_words[k % 3] : 0U;
+        if (k % 2 == 0)
+          r.set(en(k), w);
+        else
+          r[en(k)] = w;
+      }
+      return r;
+    }
     case m_array_ctor:
     {
       // a bitfield built from the storage array of another one holds the same enumerators (object(array_type const &))
